@@ -15,6 +15,7 @@ func init() {
 			a.c09Forget()
 			a.c09Emit()
 			a.c09More()
+			a.drainUnconditional("S.drain")
 		})
 }
 
